@@ -16,11 +16,13 @@ from . import puml_sem
 
 REPO = os.environ.get("VERIF_REPO", "/repo")
 GEN_SALT = "otel2puml-verif-gen-v1"
+GENY_RICH_FROM = 400     # geny:i for i >= 400: forks next to break branches
 
 
 class Gen:
     def __init__(self, rng, max_depth=3, allow_loops=True, allow_kill=True,
-                 max_events=14, p_loop=0.3, loop_in_break=False):
+                 max_events=14, p_loop=0.3, loop_in_break=False,
+                 fork_in_break_alt=False):
         self.rng = rng
         self.n = 0
         self.max_depth = max_depth
@@ -29,6 +31,10 @@ class Gen:
         self.max_events = max_events
         self.p_loop = p_loop
         self.loop_in_break = loop_in_break
+        # geny, indices >= GENY_RICH_FROM: the alternative to a break branch
+        # may be / begin with a fork (the event that decides the break also
+        # forks inside the loop)
+        self.fork_in_break_alt = fork_in_break_alt
 
     def ev(self):
         self.n += 1
@@ -95,7 +101,7 @@ class Gen:
 
     def loop(self, depth, nested, fork_depth):
         r = self.rng
-        want_break = r.random() < 0.4
+        want_break = r.random() < (0.8 if self.fork_in_break_alt else 0.4)
         body = self.seq(depth, True, nested, fork_depth=fork_depth,
                         want_break_xor=want_break)
         return ["loop", body]
@@ -121,6 +127,10 @@ class Gen:
                     br = ([self.ev()]
                           + ([self.ev()] if r.random() < 0.3 else [])
                           + [["break"]])
+            elif self.fork_in_break_alt and r.random() < 0.6:
+                lead = [] if r.random() < 0.5 else [self.ev()]
+                br = lead + [self.fork(depth, True, loop_nested, 2, False)] \
+                    + ([self.ev()] if r.random() < 0.5 else [])
             else:
                 br = [self.ev()] + ([self.ev()] if r.random() < 0.3 else [])
             brs.append(br)
@@ -207,13 +217,18 @@ def geny_def(i: int):
         hashlib.sha256(f"{GEN_SALT}|defy|{i}".encode()).digest()[:8], "big"
     )
     pr = gen_params(i + 2 * 10**6)
+    if i >= GENY_RICH_FROM:
+        pr.update(allow_loops=True, p_loop=0.6, fork_in_break_alt=True)
     relaxed = None
     for attempt in range(12):
         rng = random.Random(seed + attempt)
         g = Gen(rng, **pr)
         body = g.seq(0, False, False, top=True)
         relaxed = _relax(body, rng, True)
-        if relaxed != body:
+        if i >= GENY_RICH_FROM:
+            if puml_sem.count_kind(relaxed, ("break",)):
+                break
+        elif relaxed != body:
             break
     return relaxed
 
